@@ -207,6 +207,8 @@ def run(ctx):
     M = PoolModel(P, cg)
     inserts = [s for s in M.lease_sql() if s.stmt["kind"] == "insert"]
     ctx.floor("R2", "lease writer", len(inserts), 1)
+    ctx.check(len(inserts) <= 1, "R2", "single-lease-writer", "", "exactly one statement inserts into `leases` (found %d: %s): a second writer "
+              "is outside everything this property's rules say about the writer" % (len(inserts), ", ".join(x.body.id for x in inserts)))
     if len(inserts) != 1:
         return
     writer = inserts[0].body.id
